@@ -32,6 +32,15 @@ def one_case(ctx, case):
                 rc, err = t.stop()
                 return [("start", "tacd listens", "%s; exit %s; stderr: %s" % (e, rc, err[-300:]))], None
             hs = bb.handshake(sock, bb.to_alabel(domain), alpn)
+            if expect is True and hs["ok"]:
+                # a client whose highest version is TLS 1.2 (RFC 8737: "TLS 1.2 or higher") must be served the same way
+                try:
+                    hs12 = bb.handshake(t.connect_raw(), bb.to_alabel(domain), alpn, max_version="1.2")
+                except ConnectionError as e:
+                    hs12 = {"ok": False, "error": str(e)}
+                if not hs12["ok"] or hs12.get("alpn") != "acme-tls/1" or hs12.get("der") != hs.get("der"):
+                    out.append(("handshake", "a TLS 1.2-only client offering %s gets the same certificate with acme-tls/1" % alpn,
+                                hs12.get("error") or "alpn %r, same certificate: %s" % (hs12.get("alpn"), hs12.get("der") == hs.get("der"))))
             if expect is True:
                 if not hs["ok"]:
                     out.append(("handshake", "handshake succeeds when acme-tls/1 is offered (%s)" % alpn, hs["error"]))
@@ -71,7 +80,7 @@ def run(ctx):
         for h in HASHES:
             cases.append({"domain": "example.org", "digest": DIGESTS[2], "key": k, "hash": h, "dim": "key-x-hash"})
     for listen in (None, "unix"):
-        for src in ("flag", "file", "stdin"):
+        for src in ("flag", "file", "stdin", "file-leading-blank", "file-crlf"):
             cases.append({"domain": "BÜCHER.Example", "digest": DIGESTS[4], "listen": listen, "source": src, "dim": "listener-x-source"})
     if not ctx.quick:
         # more digests (every leading byte class, counter-derived) and label counts
